@@ -630,6 +630,9 @@ func runFrame(fr *frame) {
 			fr.block = nil
 			panic(a)
 		}
+		if fr.i.es.panicStack == "" {
+			fr.i.es.panicStack = targetStack(fr)
+		}
 		fr.panicking = true
 		fr.panic = p
 		if fr.i.mode&EnableTracing != 0 {
@@ -738,10 +741,18 @@ func (i *interpreter) global(fr *frame, g *ssa.Global) *value {
 	if g.Pkg != nil {
 		path := g.Pkg.Pkg.Path()
 		if !i.es.P.InitAllow(path) && !i.es.P.ZeroOK(path) {
-			panic(abort{AbortUnsupported, fmt.Sprintf("global %s of package %s whose init is not run", g.Name(), path)})
+			panic(abort{AbortUnsupported, fmt.Sprintf("global %s of package %s whose init is not run; at %s", g.Name(), path, targetStack(fr))})
 		}
 	}
 	cell := zero(mustDeref(g.Type()))
 	i.globals[g] = &cell
 	return &cell
+}
+
+func targetStack(fr *frame) string {
+	var parts []string
+	for f := fr; f != nil && len(parts) < 8; f = f.caller {
+		parts = append(parts, f.fn.String())
+	}
+	return strings.Join(parts, " <- ")
 }
